@@ -49,15 +49,61 @@ type g4bSwitch struct {
 	Stmt        *ast.SwitchStmt
 }
 
-// g4bSwitches returns the switch statements of fd whose tag, rendered, equals tag (e.g. "ext",
-// "path.Ext(fname)", "name").
+// g4bShape renders an expression with every variable name replaced by "_" (names of called
+// functions, methods and fields are kept), so that renaming a local does not change the table:
+// v.ModTime().UnixNano() -> _.ModTime().UnixNano(),  len(data) -> len(_),  fname -> _
+func g4bShape(p *Pkg, x ast.Expr) string {
+	switch v := x.(type) {
+	case *ast.Ident:
+		return "_"
+	case *ast.BasicLit:
+		return v.Value
+	case *ast.ParenExpr:
+		return "(" + g4bShape(p, v.X) + ")"
+	case *ast.SelectorExpr:
+		return g4bShape(p, v.X) + "." + v.Sel.Name
+	case *ast.BinaryExpr:
+		return g4bShape(p, v.X) + " " + v.Op.String() + " " + g4bShape(p, v.Y)
+	case *ast.UnaryExpr:
+		return v.Op.String() + g4bShape(p, v.X)
+	case *ast.CallExpr:
+		fn := ""
+		if id, ok := v.Fun.(*ast.Ident); ok {
+			fn = id.Name
+		} else {
+			fn = g4bShape(p, v.Fun)
+		}
+		var as []string
+		for _, a := range v.Args {
+			as = append(as, g4bShape(p, a))
+		}
+		return fn + "(" + strings.Join(as, ", ") + ")"
+	}
+	return p.Src(x)
+}
+
+// g4bSwitches returns the switch statements of fd that have a tag and whose case labels are all
+// string literals (the extension / header-name switches); found by content, not by variable name.
 func g4bSwitches(p *Pkg, fd *ast.FuncDecl, tag string) ([]*g4bSwitch, error) {
 	var out []*g4bSwitch
 	var err error
 	ast.Inspect(fd.Body, func(n ast.Node) bool {
 		sw, ok := n.(*ast.SwitchStmt)
-		if !ok || sw.Tag == nil || p.Src(sw.Tag) != tag {
+		if !ok || sw.Tag == nil || (tag != "" && p.Src(sw.Tag) != tag) {
 			return true
+		}
+		if tag == "" { // any switch over string literals
+			strs := false
+			for _, st := range sw.Body.List {
+				for _, x := range st.(*ast.CaseClause).List {
+					if _, ok := g4bStrLit(x); ok {
+						strs = true
+					}
+				}
+			}
+			if !strs {
+				return true
+			}
 		}
 		s := &g4bSwitch{DefaultPos: -1, Stmt: sw}
 		for i, st := range sw.Body.List {
@@ -170,12 +216,12 @@ func genC34(e *Env) error {
 		if err != nil {
 			return err
 		}
-		sws, err := g4bSwitches(p, fd, "ext")
+		sws, err := g4bSwitches(p, fd, "")
 		if err != nil {
 			return err
 		}
 		if len(sws) != 1 {
-			return fmt.Errorf("%s: expected exactly one `switch ext`, found %d", site.fn, len(sws))
+			return fmt.Errorf("%s: expected exactly one switch over string literals, found %d", site.fn, len(sws))
 		}
 		s := sws[0]
 		if !s.HasDefault || s.DefaultPos != len(s.Labels) {
@@ -203,12 +249,12 @@ func genC34(e *Env) error {
 	if err != nil {
 		return err
 	}
-	sws, err := g4bSwitches(p, fd, "ext")
+	sws, err := g4bSwitches(p, fd, "")
 	if err != nil {
 		return err
 	}
 	if len(sws) != 1 {
-		return fmt.Errorf("defaultClassKind: expected exactly one `switch ext`, found %d", len(sws))
+		return fmt.Errorf("defaultClassKind: expected exactly one switch over string literals, found %d", len(sws))
 	}
 	fmt.Fprintf(&out, "(* defaultClassKind: switch ext *)\n")
 	fmt.Fprintf(&out, "Definition dck_case_labels : list (list str) := %s.\n", g4bStrListList(sws[0].Labels))
